@@ -13,7 +13,7 @@ TECHNIQUE = ("bounded symbolic execution of Ombott.__call__ over request histori
              "(CrossHair+z3): symbolic contents of the earlier request and of the handler's writes; oracle = same request on "
              "a fresh application; retention decided inductively by a persistent-object-graph signature before/after a request")
 LEVEL_TEXT = ("For every ordered pair of request kinds (ok with cookie/header/status writes, 404, 405, undecodable path, "
-              "malformed chunked body, oversized body, handler crash, JSON-accepting client) the earlier request is served "
+              "malformed chunked body, oversized body, bodies below/above the in-memory threshold in both framings, handler crash, JSON-accepting client) the earlier request is served "
               "with symbolic contents (query text, header value written, cookie, status from a small list) and the later, "
               "concrete request must get byte-for-byte the response a fresh application gives; z3 decides every branch. "
               "Retention is decided in inductive form: after serving a request of each kind (symbolic contents) the signature "
@@ -60,7 +60,8 @@ def fresh_errors_map():
 
 
 def build_app(state):
-    app = ombott.Ombott({"max_body_size": 4, "errors_map": fresh_errors_map()})
+    # max_memfile_size 2: bodies of 3 bytes and more are spilled to the (stubbed) temporary file
+    app = ombott.Ombott({"max_body_size": 6, "max_memfile_size": 2, "errors_map": fresh_errors_map()})
 
     @app.route("/ok")
     def ok():
@@ -119,12 +120,21 @@ def env_of(kind, qs="", accept=None):
     elif kind == "body":
         env.update({"REQUEST_METHOD": "POST", "PATH_INFO": "/body", "CONTENT_LENGTH": "3",
                     "wsgi.input": stubs.SymStream(3, [], data=b"abc")})
+    elif kind == "body2":       # stays in memory
+        env.update({"REQUEST_METHOD": "POST", "PATH_INFO": "/body", "CONTENT_LENGTH": "2",
+                    "wsgi.input": stubs.SymStream(2, [], data=b"de")})
+    elif kind == "body6":       # spilled, longer than 'body'
+        env.update({"REQUEST_METHOD": "POST", "PATH_INFO": "/body", "CONTENT_LENGTH": "6",
+                    "wsgi.input": stubs.SymStream(6, [], data=b"uvwxyz")})
+    elif kind == "chunkbody":   # spilled, chunked framing
+        env.update({"REQUEST_METHOD": "POST", "PATH_INFO": "/body", "HTTP_TRANSFER_ENCODING": "chunked",
+                    "wsgi.input": stubs.SymStream(19, [], data=b"5\r\n12345\r\n0\r\n\r\n")})
     else:
         raise ValueError(kind)
     return env
 
 
-KINDS = ["ok", "404", "405", "badpath", "crash", "raise", "badchunk", "oversize", "body"]
+KINDS = ["ok", "404", "405", "badpath", "crash", "raise", "badchunk", "oversize", "body", "body2", "body6", "chunkbody"]
 
 
 def serve(app, env):
@@ -228,7 +238,7 @@ def queries(tier):
                      "ASCII string of <= 1 character, status written from %r, Accept json or not" % (k, STATUS),
                      timeout=150 if not T else 400, per_path_timeout=40, expect_cover=["ok"], family="retention"))
     firsts = KINDS
-    seconds = ["ok", "404", "badpath", "crash", "body", "badchunk", "oversize"] if not T else KINDS
+    seconds = ["ok", "404", "badpath", "crash", "body", "body2", "badchunk", "oversize"] if not T else KINDS
     for k1 in firsts:
         for k2 in seconds:
             for j2 in ((False,) if not T else (False, True)):
